@@ -31,7 +31,7 @@ vars == <<fields, nextId, done, prefix>>
 
 NoTag == [style |-> "none", words |-> <<>>]
 TagOf(style, i) == IF style = "none" THEN NoTag ELSE [style |-> style, words |-> TagWords[i]]
-CollKinds == {"strs", "ints", "smap", "set", "durs", "structs", "nstrs", "nmap", "lnamed", "mnamed", "knamed", "pdurs", "nkset", "nkmss", "dkmap"}
+CollKinds == {"strs", "ints", "smap", "set", "durs", "structs", "nstrs", "nmap", "lnamed", "mnamed", "knamed", "pdurs", "nkset", "nkmss", "dkmap", "estructs"}
 RepeatKinds == {"strs", "ints", "smap", "set"}      \* flags for these may be repeated on the command line and accumulate
 NarrowKinds == {"int8", "uint16", "named", "f32", "c64"}     \* leaf types narrower than the widest literal of their family
 \* how a leaf is supplied: not at all / under its primary name / under its alias / under both (an error) / explicitly
